@@ -2939,4 +2939,83 @@ theorem gen_text_parses (sk : List Bytes → List Bytes) (o : Options) (ho : o.m
 
 end
 
+/-! # instances (the hypotheses are satisfiable; the reader rejects what is no JavaScript) -/
+
+section examples
+
+theorem jsIdent_of {g : Bytes} (h : identB g = true) : JsIdent g := identB_ok h
+theorem jsName_of {g : Bytes} (h : (identB g && !isReserved g && g != sOptData) = true) : JsName g := by
+  simp only [Bool.and_eq_true, Bool.not_eq_true', bne_iff_ne, ne_eq] at h
+  exact ⟨identB_ok h.1.1, h.1.2, h.2⟩
+
+/-- `((opt_data.x) != null ? opt_data.x : y$1.k[0])` -/
+def exE : JsExpr := .nonNullElse (.optData b!"x") (.optData b!"x") (.index (.member (.local b!"y$1") b!"k") 0)
+
+theorem exE_img : Img exE := by
+  simp only [exE, Img, lv]
+  exact ⟨jsIdent_of (by decide), jsIdent_of (by decide),
+    ⟨jsName_of (by decide), trivial, jsIdent_of (by decide), by decide⟩, trivial, by decide⟩
+
+example : jsParseExpr (printPieces (render exE)) = some exE := jsparse_render_expr exE exE_img
+example : printPieces (render exE) = b!"((opt_data.x) != null ? opt_data.x : y$1.k[0])" := by decide
+
+/-- `output += soy.$$escapeHtml(soy.$$truncate(opt_data.s,5,true));`, an `if` chain, a loop, a call -/
+def exSs : JsStmts :=
+  .cons (.append b!"output" (.optData b!"s") [⟨7, b!"truncate", [.int 9 5]⟩, ⟨0, b!"escapeHtml", []⟩])
+  (.cons (.ifs (.cons (.bin .lt (.optData b!"n") (.num 3)) (.cons (.appendLit b!"output" b!"a<b") .nil)
+      (.els (.cons (.var b!"v$1" (.neg (.num 2))) .nil))))
+  (.cons (.forUp b!"i$2" b!"n$2" (.cons (.varIndex b!"x$2" b!"l$2" b!"i$2") .nil))
+  (.cons (.call b!"output" b!"ns.sub.u" .all [(b!"k", .str b!"v")]) .nil)))
+
+theorem exSs_img : ImgSs exSs := by
+  simp only [exSs, ImgSs, ImgS, ImgConds, ImgBase, ImgParams, Img, lv]
+  refine ⟨⟨jsName_of (by decide), jsIdent_of (by decide), ?_⟩, ⟨trivial, ⟨jsIdent_of (by decide), trivial⟩,
+      ⟨⟨jsName_of (by decide), ?_⟩, trivial⟩, ⟨⟨jsName_of (by decide), trivial, by decide⟩, trivial⟩⟩,
+    ⟨jsName_of (by decide), jsName_of (by decide), ⟨jsName_of (by decide), jsName_of (by decide), jsName_of (by decide)⟩, trivial⟩,
+    ⟨jsName_of (by decide), qOkB_ok (by decide), trivial, jsIdent_of (by decide), ?_, trivial⟩, trivial⟩
+  · intro d hd
+    simp only [List.mem_cons, List.mem_nil_iff, or_false] at hd
+    rcases hd with rfl | rfl
+    · refine ⟨⟨⟨b!"truncate", b!"soy.$$truncate", false⟩, by simp [Gen.jsDirectives], rfl, by decide⟩, ?_⟩
+      intro a ha j hj
+      simp only [List.mem_singleton] at ha
+      subst ha
+      simp only [litAst, Option.some.injEq] at hj
+      subst hj
+      trivial
+    · exact ⟨⟨⟨b!"escapeHtml", b!"soy.$$escapeHtml", true⟩, by simp [Gen.jsDirectives], rfl, by decide⟩, fun a ha => by cases ha⟩
+  · exact ValidUtf8.seq [97] _ (by decide) (ValidUtf8.seq [60] _ (by decide) (ValidUtf8.seq [98] _ (by decide) ValidUtf8.nil))
+  · exact ValidUtf8.seq [118] _ (by decide) ValidUtf8.nil
+
+example : jsParseStmts (printPieces (renderStmts false 1 exSs)) = some (canonSs exSs) := jsparse_render_stmts exSs 1 exSs_img
+
+/-- the canonical form changed the positions of the directives and spelled out the `true` of `|truncate:5`; nothing else -/
+example : canonSs exSs =
+    .cons (.append b!"output" (.optData b!"s") [⟨0, b!"truncate", [.int 0 5, .bool 0 true]⟩, ⟨0, b!"escapeHtml", []⟩])
+    (.cons (.ifs (.cons (.bin .lt (.optData b!"n") (.num 3)) (.cons (.appendLit b!"output" b!"a<b") .nil)
+        (.els (.cons (.var b!"v$1" (.neg (.num 2))) .nil))))
+    (.cons (.forUp b!"i$2" b!"n$2" (.cons (.varIndex b!"x$2" b!"l$2" b!"i$2") .nil))
+    (.cons (.call b!"output" b!"ns.sub.u" .all [(b!"k", .str b!"v")]) .nil))) := by
+  simp [exSs, canonSs, canonS, canonConds, canonDir, canonArgs, litAst, litOf, sTruncate]
+
+example : jsParseFile (printPieces (renderFunc false 0 ⟨b!"ns.sub.t", true, exSs⟩)) = some [canonF ⟨b!"ns.sub.t", true, exSs⟩] :=
+  jsparse_render_func _ 0 ⟨qOkB_ok (by decide), exSs_img⟩
+
+/-! what is no JavaScript (or outside the fragment) is rejected -/
+
+example : jsParseExpr b!"((opt_data.x) + (1)" = none := by decide +kernel            -- unbalanced
+example : jsParseExpr b!"'abc" = none := by decide +kernel                           -- unterminated string
+example : jsParseExpr b!"5.length" = none := by decide +kernel                       -- `{length(5)}`: soyjs writes it, no engine reads it
+example : jsParseExpr b!"soy.$$augmentMap(opt_data, {2nd: 1})" = none := by decide +kernel
+example : jsParseExpr b!"((1) + * (2))" = none := by decide +kernel
+example : (jsParseStmts b!"output += 'a'\n").isNone = true := by decide +kernel     -- no automatic semicolon insertion
+example : (jsParseStmts b!"var class = 1;").isNone = true := by decide +kernel      -- a reserved word
+example : (jsParseStmts b!"output += 'a';").isSome = true := by decide +kernel
+/-- `{length(not $x)}`: soyjs writes `!(opt_data.x).length`; the grammar reads `!((opt_data.x).length)`, which is not the
+    text of any `JsExpr` (the AST of C04c says `length(!x)`: excluded from `Img`) -/
+example : ((jsLex b!"!(opt_data.x).length").bind parseExpr).isSome = true := by decide +kernel
+example : jsParseExpr b!"!(opt_data.x).length" = none := by decide +kernel
+
+end examples
+
 end SoyVerif.Props.C14c
